@@ -270,9 +270,15 @@ def bare_owned(arg):
         if isinstance(n, ast.Call):
             f = (dotted(n.func) or "").split(".")[-1]
             # only identity-like helpers hand their argument back as is
-            if f in ("iterable", "wrapify", "vyxalify") and n.args \
+            # (and lazy wrappers hand back a *view*: a list iterator sees
+            # what is appended to / popped from the list afterwards, so
+            # deep_copy(<owned list>) is not a snapshot until materialised)
+            if f in ("iterable", "wrapify", "vyxalify", "deep_copy",
+                     "LazyList", "iter", "tee", "map", "filter", "enumerate",
+                     "reversed", "zip", "chain", "islice") and n.args \
                     and not copied:
-                rec(n.args[0], copied)
+                for a in n.args:
+                    rec(a, copied)
             return
         if isinstance(n, ast.Subscript):
             if isinstance(n.slice, ast.Slice):
